@@ -134,6 +134,18 @@ func c06case(c *wk.Ctx, idx int, r *rand.Rand, pl c06plan, t *rngTee) {
 	srv.G = gens[(idx/3)%len(gens)]
 	c.Count(fmt.Sprintf("server.rsa_e=%d", srv.RSA.E), 1)
 	c.Count(fmt.Sprintf("server.g=%d", srv.G), 1)
+	// the server's clock is its own: behind, ahead, not set at all, far future
+	srv.ServerTime = nil
+	if shifts := []int64{0, -61, 0, 601, 0, -1 << 40, 0, 86400 * 365 * 12, 0, -7200}; shifts[idx%len(shifts)] != 0 {
+		sh := shifts[idx%len(shifts)]
+		srv.ServerTime = func() int32 {
+			if sh == -1<<40 {
+				return 0
+			}
+			return int32(time.Now().Unix() + sh)
+		}
+		c.Count("server.clock_differs", 1)
+	}
 	g := big.NewInt(int64(srv.G))
 	// ---- fix the draws of both sides
 	serverNonce := rbytes(r, 16)
